@@ -11,6 +11,10 @@
  *   big <base> <ex> <hex>   internal state after the scaling loops of convert() -> "n first d0 d1 ..." (digit array dump)
  */
 #include "strtod.c"
+#ifndef C13_SHAMT_BASE
+#define C13_SHAMT_BASE 5
+#define C13_SHAMT_DIV 4
+#endif
 #include <stdio.h>
 #include <stdlib.h>
 #include <string.h>
@@ -121,7 +125,8 @@ int main(void) {
             for (; exponent > 1; exponent -= 2) bignat_muladd(&mant, base * base, 0);
             for (; exponent > 0; exponent -= 1) bignat_muladd(&mant, base, 0);
             if (exponent < 0) {
-                int32_t shamt = 5 - exponent / 4;
+                /* shift amount as read from the current source by tools/gen/strtod.py (passed with -D) */
+                int32_t shamt = C13_SHAMT_BASE - exponent / C13_SHAMT_DIV;
                 bignat_lshift_n(&mant, shamt);
                 for (; exponent < -3; exponent += 4) bignat_div(&mant, base * base * base * base);
                 for (; exponent < -1; exponent += 2) bignat_div(&mant, base * base);
